@@ -5,7 +5,8 @@ use crate::core::Tier;
 use crate::fe::{BufKind, Fe, SrcFault, LADDER};
 use crate::refenc::{noise_ok, refenc, refenc_regions, Region, START};
 use crate::rng::Rng;
-use crate::scn::{Enc, WireFault};
+use crate::hexbytes::Hx;
+use crate::scn::{Enc, Seg, WireFault};
 
 pub const END_LOOKALIKE: [u8; 8] = [0x1b, 0x1b, 0x1b, 0x1b, 0x1a, 0x00, 0x12, 0x34];
 
@@ -532,6 +533,12 @@ pub fn gen_buf_fitting(rng: &mut Rng, fe: Fe, need: usize) -> BufKind {
     }
 }
 
+/// 0..below faults
+pub fn gen_src_faults_upto(rng: &mut Rng, len: usize, below: usize, kinds: &[SrcFault]) -> Vec<(usize, SrcFault)> {
+    let k = rng.below(below);
+    gen_src_faults(rng, len, k, kinds)
+}
+
 /// source faults over a stream of `len` bytes
 pub fn gen_src_faults(
     rng: &mut Rng,
@@ -561,6 +568,97 @@ pub fn gen_src_faults(
         for _ in 0..rep {
             v.push((pos, f));
         }
+    }
+    v.sort_by_key(|(p, _)| *p);
+    v
+}
+
+
+// ---------------------------------------------------------------------------
+// arbitrary streams (no promise): frames with and without faults, noise, junk,
+// cut-off frames, Byzantine frames.  Swarm style: each run draws its own mix.
+// ---------------------------------------------------------------------------
+
+pub struct StreamMix {
+    pub max_payload: usize,
+    pub max_segs: usize,
+    /// weights: intact frame, faulty frame, noise, raw, cut, byzantine
+    pub w: [usize; 6],
+}
+
+impl StreamMix {
+    pub fn draw(rng: &mut Rng, max_payload: usize) -> StreamMix {
+        let mut w = [6usize, 6, 3, 3, 3, 3];
+        for x in w.iter_mut() {
+            if rng.chance(1, 4) {
+                *x = 0;
+            }
+        }
+        if w.iter().sum::<usize>() == 0 {
+            w[1] = 1;
+        }
+        StreamMix {
+            max_payload,
+            max_segs: rng.range(1, 6),
+            w,
+        }
+    }
+}
+
+pub fn gen_segs(rng: &mut Rng, tier: Tier, mix: &StreamMix) -> Vec<Seg> {
+    let n = rng.range(1, mix.max_segs);
+    let mut v = Vec::new();
+    for _ in 0..n {
+        match rng.weighted(&mix.w) {
+            0 => {
+                let p = gen_payload(rng, tier, mix.max_payload);
+                v.push(Seg::Frame {
+                    payload: Hx(p),
+                    enc: gen_enc(rng),
+                    faults: vec![],
+                });
+            }
+            1 => {
+                let p = gen_payload(rng, tier, mix.max_payload.min(300));
+                let k = rng.range(1, 3);
+                let faults = (0..k).map(|_| gen_wire_fault(rng, &p)).collect();
+                v.push(Seg::Frame {
+                    payload: Hx(p),
+                    enc: Enc::Ref,
+                    faults,
+                });
+            }
+            2 => {
+                let (_, g) = gen_noise(rng, 300);
+                v.push(Seg::Noise(Hx(g)));
+            }
+            3 => v.push(Seg::Raw(Hx(gen_raw(rng, 40)))),
+            4 => {
+                let p = gen_payload(rng, tier, mix.max_payload.min(200));
+                let flen = refenc(&p).len();
+                let cut = rng.range(0, flen - 1);
+                v.push(Seg::Cut { payload: Hx(p), cut });
+            }
+            _ => {
+                let (_, b) = gen_byzantine_frame(rng);
+                v.push(Seg::Raw(Hx(b)));
+            }
+        }
+    }
+    v
+}
+
+/// finalize / reset at random positions of a stream of `len` bytes
+pub fn gen_push_ops(rng: &mut Rng, len: usize, count: usize) -> Vec<(usize, crate::fe::PushOp)> {
+    let mut v = Vec::new();
+    for _ in 0..count {
+        let pos = rng.below(len + 1);
+        let op = if rng.chance(1, 2) {
+            crate::fe::PushOp::Finalize
+        } else {
+            crate::fe::PushOp::Reset
+        };
+        v.push((pos, op));
     }
     v.sort_by_key(|(p, _)| *p);
     v
